@@ -40,6 +40,18 @@ PROPS = {
         ],
         "assumptions": E1_ASSUME,
     },
+    "C05": {
+        "level": "model_checking",
+        "uses_vsched": True,
+        "technique": "stateless model checking under a controlled scheduler: Close/Wait threads x in-flight gated handlers x outgoing calls x late traffic x EOF x a write failure at every write index, delay-bounded schedules; deadlock/leak/panic oracles",
+        "claim": "on every explored execution no handler starts for a request handed over after the close was recorded, such calls get the closing error, running handlers finish before the transport is closed, Close and Wait return, nothing is left running (bubble exit), no panic",
+        "note": "handlers return (gates are opened by the idle-priority controller) and the transport honours Close, as the property presumes; bounded budgets",
+        "parts": [
+            {"pkg": "internal/jsonrpc2", "mode": "instr", "test": "TestVerifC05", "scenario_prefix": "a/"},
+            {"pkg": "mcp", "mode": "instr", "test": "TestVerifC05", "scenario_prefix": "b/"},
+        ],
+        "assumptions": E1_ASSUME,
+    },
     "C20": {
         "level": "model_checking",
         "technique": "explicit-state breadth-first search over operation histories of the real MemoryEventStore with a reference model and private-state invariants checked after every operation",
